@@ -164,7 +164,8 @@ class Ctx:
     def model_check(self, specdir, module, cfg, workers=None, timeout=900, emit=False, tag=None, count=True):
         """Exhaustive TLC run that must pass on the spec (a failure is a defect of the
         specification, i.e. inconclusive, never a verdict about the code)."""
-        w = 1 if emit else (workers or NCPU)
+        # (edge emission is a PrintT per transition: the set of printed lines does not depend on the number of workers)
+        w = min(8, NCPU) if emit else (workers or NCPU)
         r = self.tlc(specdir, module, cfg, workers=w, timeout=timeout, tag=tag)
         if r["errors"] or r["distinct"] == 0:
             raise Inconclusive("TLC reported an error in the specification itself (%s %s):\n%s" % (module, cfg, r["tail"]))
@@ -291,7 +292,7 @@ def seq_component(ctx, comp, specdir, impl, emit_cfg, trace_mod, trace_cfg, gocm
     for (mod, cfg) in extra_mc:
         ctx.model_check(specdir, mod, cfg)
     if emit_from is None:
-        r = ctx.model_check(specdir, impl, emit_cfg, emit=True, tag=comp + "_emit")
+        r = ctx.model_check(specdir, impl, emit_cfg, emit=True, tag=comp + "_emit", timeout=900 if ctx.tier == "quick" else 2400)
     else:
         r = emit_from   # the same TLC graph walked on another implementation of the same spec
     ctx.last_emit = r
